@@ -114,7 +114,9 @@ pub fn run(cfg: &RunCfg, rep: &mut Report) {
             rep,
             i,
             |rep, p, spend, assets| {
-                if p.flow != "get_satisfaction" || p.standard.is_err() {
+                // the direct satisfier, with the harness's lock-time answers and with the library's
+                // own lock-time satisfiers
+                if (p.flow != "get_satisfaction" && p.flow != "builtin-locktime-satisfiers") || p.standard.is_err() {
                     return;
                 }
                 if control != p.mall {
